@@ -70,6 +70,25 @@ type c13Case struct {
 	NodeProps   map[string]m.Lit `json:"node_props"` // values of the reported node for placeholder properties (absent = null)
 	ProfileText string           `json:"profile_text"`
 	Route       int              `json:"route,omitempty"` // entry point producing the report (see validateVia)
+	// Sibling, when set, names a second validation of the same level with the same message and body: a name that
+	// differs from the first only in letter case, punctuation or one character (names are text, not identifiers)
+	Sibling string `json:"sibling,omitempty"`
+}
+
+func c13SiblingName(t *rapid.T, name string) string {
+	cands := []string{strings.ToUpper(name), strings.ToLower(name), strings.NewReplacer(".", "-", "-", "_", "_", ".", " ", "_").Replace(name), name + ".", name + " ", "-" + name, name + "必"}
+	rs := []rune(name)
+	if len(rs) > 0 {
+		rs[len(rs)-1] = '版'
+		cands = append(cands, string(rs))
+	}
+	var ok []string
+	for _, c := range cands {
+		if c != name && c != "" {
+			ok = append(ok, c)
+		}
+	}
+	return ok[rapid.IntRange(0, len(ok)-1).Draw(t, "siblingName")]
 }
 
 var placeholderRe = regexp.MustCompile(`\{\{\s*([\w-]+\.[\w-]+)\s*}}`)
@@ -120,8 +139,12 @@ func genC13(t *rapid.T) c13Case {
 	v.Set("targetClass", m.YStr("ex.Test"))
 	v.Set("message", m.YStr(c.Message.S))
 	v.Set("propertyConstraints", m.YMap().Set("ex.pv", m.YMap().Set(c.ListKind, m.YSeq(m.YStr(c.Value.S)))))
-	y.Set("validations", m.YMap().Set(c.VName.S, v))
-	c.ProfileText = y.Print(m.YOpts{Quote: 1})
+	_ = y
+	_ = v
+	if rapid.IntRange(0, 3).Draw(t, "sibling") == 0 && c.VName.S != "" {
+		c.Sibling = c13SiblingName(t, c.VName.S)
+	}
+	c.ProfileText = c13Tree(c).Print(m.YOpts{Quote: 1})
 	c.Route = rapid.SampledFrom([]int{0, 0, 1, 2, 3}).Draw(t, "route")
 	return c
 }
@@ -130,12 +153,32 @@ func c13Tree(c c13Case) *m.Y {
 	y := m.YMap()
 	y.Set("profile", m.YStr(c.Name.S))
 	y.Set("prefixes", m.YMap().Set("ex", m.YStr(m.NS)))
-	y.Set("violation", m.YSeq(m.YStr(c.VName.S)))
-	v := m.YMap()
-	v.Set("targetClass", m.YStr("ex.Test"))
-	v.Set("message", m.YStr(c.Message.S))
-	v.Set("propertyConstraints", m.YMap().Set("ex.pv", m.YMap().Set(c.ListKind, m.YSeq(m.YStr(c.Value.S)))))
-	y.Set("validations", m.YMap().Set(c.VName.S, v))
+	names := []string{c.VName.S}
+	if c.Sibling != "" {
+		names = append(names, c.Sibling)
+	}
+	lv := m.YSeq()
+	vs := m.YMap()
+	for _, name := range names {
+		lv.Items = append(lv.Items, m.YStr(name))
+		v := m.YMap()
+		v.Set("targetClass", m.YStr("ex.Test"))
+		if name == c.Sibling {
+			v.Set("message", m.YStr(c.Message.S+" (the other one)")) // same placeholders, another text
+		} else {
+			v.Set("message", m.YStr(c.Message.S))
+		}
+		pc := m.YMap().Set("ex.pv", m.YMap().Set(c.ListKind, m.YSeq(m.YStr(c.Value.S))))
+		if c.Sibling != "" {
+			// a second conjunct that always holds: the validation then has more than one way of failing in the
+			// generated policy, as most real validations do
+			pc.Set("ex.zz", m.YMap().Set("maxCount", m.YInt(5)))
+		}
+		v.Set("propertyConstraints", pc)
+		vs.Set(name, v)
+	}
+	y.Set("violation", lv)
+	y.Set("validations", vs)
 	return y
 }
 
@@ -201,10 +244,34 @@ func decideC13(c c13Case) ev.Verdict {
 	for _, r := range rep.Results {
 		focus = append(focus, r.Focus)
 	}
-	if len(rep.Results) != 1 || rep.Results[0].Focus != g.Nodes[bad].ID {
-		return ev.Violation("c13-meaning-changed", "the node holding exactly the listed value must pass and the other node must fail; reported: %v\n%s", short(focus), where())
+	wantResults := 1
+	if c.Sibling != "" {
+		wantResults = 2
+		labels = append(labels, "sibling-validation-with-a-similar-name")
+	}
+	if len(rep.Results) != wantResults {
+		return ev.Violation("c13-meaning-changed", "the node holding exactly the listed value must pass and the other node must fail (once per validation); reported: %v\n%s", short(focus), where())
+	}
+	for _, x := range rep.Results {
+		if x.Focus != g.Nodes[bad].ID {
+			return ev.Violation("c13-meaning-changed", "the node holding exactly the listed value must pass and the other node must fail; reported: %v\n%s", short(focus), where())
+		}
 	}
 	r := rep.Results[0]
+	if c.Sibling != "" {
+		// one result per validation, each under its own name, with the same message
+		a, b := rep.Results[0], rep.Results[1]
+		if !((a.Shape == c.VName.S && b.Shape == c.Sibling) || (a.Shape == c.Sibling && b.Shape == c.VName.S)) {
+			return ev.Violation("c13-validation-name-altered", "sourceShapeNames %q and %q, written %q and %q", a.Shape, b.Shape, c.VName.S, c.Sibling)
+		}
+		if a.Shape != c.VName.S {
+			a, b = b, a
+		}
+		r = a
+		if b.Message != a.Message+" (the other one)" {
+			return ev.Violation("c13-message-altered", "two validations whose messages differ by a suffix report %q and %q", a.Message, b.Message)
+		}
+	}
 	if r.Shape != c.VName.S {
 		return ev.Violation("c13-validation-name-altered", "sourceShapeName %q, written %q", r.Shape, c.VName.S)
 	}
